@@ -441,7 +441,7 @@ def _guard_and_linkage(ctx, frames):
                 'for an encapsulee in the global namespace the shell is wrapped in `namespace {` - an unnamed namespace: the '
                 'struct and its member definitions get internal linkage and cannot be used from another translation unit')
         if named:
-            ok = any(txt[i] == 'namespace' and toks[i + 1][0] == 'fqn' for i in range(len(txt) - 1))
+            ok = any(txt[i] == 'namespace' and toks[i + 1][0] in ('fqn', 'id') for i in range(len(txt) - 1))     # (a name, not `{`)
             run.add('C06.linkage', 'dznpy.adv_shell', f'Builder.{m}', label + ' (wrapper)', ok,
                     'the shell lives in the encapsulee\'s namespace' if ok else
                     'the shell is not wrapped in the encapsulee\'s namespace')
